@@ -196,28 +196,17 @@ Qed.
 Theorem s2s_unloaded s : s2s_get hash new_s2s s = Ok None /\ s2s_len new_s2s = Ok 0.
 Proof. split; reflexivity. Qed.
 
-(* the zero value Str2Str{}: LoadFromSlice accepts it (it creates the two parts), but Get and Len
-   dereference the nil inner map until a load has succeeded *)
-Definition s2s_zero_unloaded_statement : Prop :=
-  forall s, s2s_get hash zero_s2s s = Ok None /\ s2s_len zero_s2s = Ok 0.
-
-Lemma s2s_zero_unloaded_panics s :
-  s2s_get hash zero_s2s s = Panic 6 /\ s2s_len zero_s2s = Panic 6.
+(* the zero value Str2Str{} (both parts nil): Get and Len test the inner map for nil, so it
+   answers "absent" / 0 until a load has been accepted -- also after refused loads, which leave
+   it the zero value *)
+Theorem s2s_zero_unloaded s : s2s_get hash zero_s2s s = Ok None /\ s2s_len zero_s2s = Ok 0.
 Proof. split; reflexivity. Qed.
 
-Lemma s2s_zero_unloaded_false : ~ s2s_zero_unloaded_statement.
-Proof. intros H. destruct (H []) as [_ Hl]. discriminate Hl. Qed.
-
-Lemma s2s_zero_refused_still_zero kk vv :
-  length kk <> length vv -> fst (s2s_load hash sort zero_s2s kk vv) = zero_s2s.
-Proof. intros H. now rewrite s2s_load_fail_noop. Qed.
-
-Lemma s2s_zero_loaded kk vv s :
-  length kk = length vv -> NoDup kk -> loadable kk -> Forall small vv ->
-  snd (s2s_load hash sort zero_s2s kk vv) = Ok tt /\
-  s2s_get hash (fst (s2s_load hash sort zero_s2s kk vv)) s = Ok (assoc kk vv s) /\
-  s2s_len (fst (s2s_load hash sort zero_s2s kk vv)) = Ok (len kk).
-Proof. apply s2s_spec. Qed.
+Theorem s2s_zero_refused kk vv s :
+  length kk <> length vv ->
+  s2s_get hash (fst (s2s_load hash sort zero_s2s kk vv)) s = Ok None /\
+  s2s_len (fst (s2s_load hash sort zero_s2s kk vv)) = Ok 0.
+Proof. intros H. rewrite s2s_load_fail_noop by exact H. apply s2s_zero_unloaded. Qed.
 
 Theorem s2s_load_map_spec st kk vv visit s :
   length kk = length vv -> NoDup kk -> loadable kk -> Forall small vv ->
